@@ -106,6 +106,12 @@ CLAIMED = {
             "continued, or warned and only converged steps returned; no failure => silent complete run. ScipyIVP/ScipyDAE on contact systems must raise or warn.",
             "4/C21", "fault-schedule exploration: symbolic booleans injected into the real solver loops (rebinding fsolve / norm in the solver module), z3 for path feasibility, all schedules within the bound; float replay of the schedule",
             "Coverage is exhaustive over <= 2 steps x <= 2 iterations only (Rattle with continue_with_unconverged is cut at the path budget in the quick tier; paths_cut is reported)."),
+    "C20": ("proof", "(a) The time-grid law of each solver is read from its source (AST) and encoded bit-precisely in IEEE-754 double (z3 QF_FP): "
+            "'ends at the first grid point at or after t1' is asked for all doubles t1, dt within the bound; models are replayed on every real solver "
+            "using that law. (b) Row counts and widths of all stored fields on concrete runs of every solver. (c) Solution.__iter__ with symbolic "
+            "entries: one record per instant, each field equal to its row.", "4/C20",
+            "bit-precise floating-point SMT (z3 QF_FP) of the grid construction read from the solver source + symbolic execution of Solution.__iter__; float replay on the real solvers",
+            "Bounded to <= 5 (quick) / 16 (thorough) grid points, t0 = 0; known finding C20-time-grid-rounding (reported as KNOWN-FINDING); save/load outside."),
 }
 
 NOT_APPLICABLE = {
